@@ -720,11 +720,18 @@ ENS_CONFIGS = [
      "bounds": [(-1.5, 1.5)] * 3, "termG": None, "limG": 3, "cons": False, "pen": False},
     {"name": "lattice#3/PW/plateau", "kind": "lattice", "dim": 2, "nbins": 3, "n": 3, "nested": "PW", "cost": "plateau",
      "bounds": [(-1.5, 1.5), (0.0, 3.0)], "termG": 2, "limG": None, "cons": False, "pen": False},
+    # no limits given and members that run LONGER than the defaults an ensemble would resolve for itself (10*nDim
+    # generations): whose limits the members run under must not depend on how the run is driven or observed
+    {"name": "lattice2x1/NM/bowl-long", "kind": "lattice", "dim": 2, "nbins": [2, 1], "n": 2, "nested": "NM", "cost": "bowl",
+     "bounds": [(-3.0, 3.0), (-3.0, 3.0)], "termG": 27, "limG": None, "cons": False, "pen": False},
+    {"name": "buckshot2/PW/bowl-long", "kind": "buckshot", "dim": 2, "n": 2, "nested": "NM", "cost": "far",
+     "bounds": [(-3.0, 3.0), (-3.0, 3.0)], "termG": 24, "limG": None, "cons": False, "pen": False},
 ]
 
 
 def run_ensemble(cfg, seed, mapper, mode):
-    """mode: "solve" | "step" (Step() until it reports a stop) | "stepsolve" (Solve(step=True))"""
+    """mode: "solve" | "step" (Step() until it reports a stop) | "stepsolve" (Solve(step=True)) | "stepquery" (the
+    user's loop `while not solver.Terminated(): solver.Step(cost)`, with read-only queries between the steps)"""
     import mystic.solvers as ms
     import mystic.termination as mt
     S.reset()
@@ -753,6 +760,16 @@ def run_ensemble(cfg, seed, mapper, mode):
             rounds = 1
         elif mode == "stepsolve":
             s.Solve(cost, disp=0, step=True)
+        elif mode == "stepquery":
+            # queries are observations: asking a solver whether it has terminated (also BEFORE its first step), for its
+            # best, its counters or its history must not change what it does next
+            while not s.Terminated():
+                s.Step(cost, disp=0)
+                rounds += 1
+                _ = (s.Terminated(info=True), s.Terminated(disp=False, all=True), s.bestEnergy, C.canon(s.bestSolution),
+                     s.evaluations, s.generations, len(s.energy_history), s._all_evals)
+                if rounds > 300:
+                    break
         else:
             while True:
                 msg = s.Step(cost, disp=0)
@@ -800,7 +817,7 @@ def run_ens_task(arg):
                                       "%s seed %d, %s under %s %s: %s differ(s) from the serial Solve()" % (
                                           cfg["name"], seed, mode, label, sched_ if sched_ else "", ", ".join(bad))))
     # the two other drivers under the serial map
-    for mode in ("step", "stepsolve"):
+    for mode in ("step", "stepsolve", "stepquery"):
         obs, rounds = run_ensemble(cfg, seed, C.EventMap([], name="serial"), mode)
         check(mode, "serial", obs)
         rep["nontrivial"] += 1
